@@ -166,7 +166,7 @@ class Graph(Suite):
     go_cmd = "c07"
     coq_imports = "From GoGit Require Import Model.PackEnc."
     quick_n = 80
-    thorough_n = 700
+    thorough_n = 400
     coq_chunk = 60
 
     def gen(self, rng, n, tier):
@@ -288,7 +288,7 @@ class Select(Suite):
     go_cmd = "c07"
     coq_imports = "From GoGit Require Import Model.PackEnc."
     quick_n = 60
-    thorough_n = 400
+    thorough_n = 200
     coq_chunk = 40
 
     def __init__(self):
